@@ -1,5 +1,6 @@
 import RpmVerif.Driver.Common
 import RpmVerif.Model.Io
+import RpmVerif.Model.BufWriter
 /-! Driver for C14 (see harness/src/c14.rs for the request grammar).
 
 * `wr PKG SINK`, `wrm PKG SINK`: the harness' scripted sink is keyed on the bytes accepted so far; it is
@@ -7,11 +8,15 @@ import RpmVerif.Model.Io
   sequence (`respRunK`), and the model's answer is `run (prog p) script`. The spec verdict uses the
   canonical bytes alone: `ok` ⇒ emitted = canonical, `err` ⇒ emitted is a prefix of canonical.
 * `rd PKG SRC`: `parseChunked` under the harness' chunk script vs `parsePackage`; spec: chunked = unchunked.
-* `tr PKG K`: spec: K before the payload offset ⇒ error. -/
+* `tr PKG K`: spec: K before the payload offset ⇒ error.
+* `wf PKG CAP SINK`, `wfile PKG LIMIT`: `write_file`. The harness' sink (for `wfile`: the kernel stopping the
+  file at LIMIT bytes = sink `a:f<LIMIT>`, capacity 8192) is a state machine; `recordScript` replays the
+  BufWriter call pattern against it only to RECORD the responses it gives; the model's answer is the proved
+  `writeFile cap (bufs) script` on that recorded script (and must agree with the replay: self-check). -/
 namespace RpmVerif.Driver.C14
 open RpmVerif.Hdr RpmVerif.Io RpmVerif.Driver
 
-def ops : List String := ["wr", "wrm", "rd", "tr"]
+def ops : List String := ["wr", "wrm", "rd", "tr", "wf", "wfile"]
 
 inductive CK where
   | all | one | fixed (k : Nat) | rand (seed : Nat)
@@ -144,9 +149,117 @@ def truncHandle (bs : Bytes) (k : Nat) (impl : String) : String :=
     | _ => ("fails:neither-ok-nor-err", "tr-other")
   answer m v br
 
+/-! ### write_file: the harness' sink as a state machine, and the script it produces -/
+
+structure SinkSt where
+  calls : Nat := 0
+  rng : UInt64
+  fired : Bool := false
+  acc : Nat := 0
+
+/-- one `Sink::write(buf)` of harness/src/c14.rs for a non-empty buffer of `offered` bytes -/
+def sinkWrite (sp : Spec) (s : SinkSt) (offered : Nat) : Resp × SinkSt := Id.run do
+  let mut s := s
+  if let some (n, mode) := sp.limit then
+    if s.acc ≥ n && !s.fired then
+      if mode == 2 then s := { s with fired := true }
+      return (if mode == 1 then .ok 0 else .fail, s)
+  s := { s with calls := s.calls + 1 }
+  if sp.intr > 0 && s.calls % sp.intr == 0 then return (.intr, s)
+  let mut size := offered
+  match sp.chunk with
+  | .all => size := offered
+  | .one => size := 1
+  | .fixed k => size := k
+  | .rand _ =>
+    let (v, r') := rngNext s.rng
+    s := { s with rng := r' }
+    size := 1 + (v % 17).toNat
+  let mut n := min size offered
+  if let some (lim, _) := sp.limit then
+    if !s.fired then n := min n (lim - s.acc)
+  return (.ok n, { s with acc := s.acc + n })
+
+/-- `write_all(data)` / `flush_buf` loop against the state machine: (accepted, ok?, state, responses) -/
+partial def writeAllF (sp : Spec) (data : Bytes) (s : SinkSt) (log : Array Resp) : Bytes × Bool × SinkSt × Array Resp :=
+  if data.isEmpty then ([], true, s, log) else
+  let (r, s') := sinkWrite sp s data.length
+  let log := log.push r
+  match r with
+  | .intr => writeAllF sp data s' log
+  | .fail => ([], false, s', log)
+  | .ok n =>
+    if n = 0 then ([], false, s', log)
+    else
+      let (e, ok, s'', log') := writeAllF sp (data.drop n) s' log
+      (data.take n ++ e, ok, s'', log')
+
+/-- replay of `write_file`'s BufWriter call pattern, only to record the sink's responses -/
+def recordScript (sp : Spec) (cap : Nat) (ds : List Bytes) : List Resp := Id.run do
+  let seed := match sp.chunk with | .rand s => s | _ => 0
+  let mut s : SinkSt := { rng := rngNew seed.toUInt64 }
+  let mut log : Array Resp := #[]
+  let mut buf : Bytes := []
+  let mut ok := true
+  for d in ds do
+    if !ok then break
+    if d.length < cap - buf.length then
+      buf := buf ++ d
+    else
+      if d.length > cap - buf.length then
+        let (e, k, s', l') := writeAllF sp buf s log
+        s := s'; log := l'; buf := buf.drop e.length
+        if !k then ok := false
+      if ok then
+        if cap ≤ d.length then
+          let (_, k, s', l') := writeAllF sp d s log
+          s := s'; log := l'
+          if !k then ok := false
+        else buf := buf ++ d
+  if ok then
+    -- flush()?
+    let (e, _, s', l') := writeAllF sp buf s log
+    s := s'; log := l'; buf := buf.drop e.length
+  -- drop: one more flush_buf
+  let (_, _, _, l') := writeAllF sp buf s log
+  return l'.toList
+
+def writeFileHandle (op : String) (bs : Bytes) (cap : Nat) (sp : Spec) (impl : String) : String :=
+  match parsePackage bs with
+  | .ok p =>
+    let ds := (prog p).map Act.buf
+    let canon := writePackage p
+    let total := canon.length
+    let script := recordScript sp cap ds
+    let r := writeFile cap ds script
+    let old := writeFileOld cap ds script
+    let m := s!"{stName r.2} {r.1.length} {hex16 (fnv r.1)}"
+    let v := match impl.splitOn " " with
+      | ["ok", l, h] => if l == toString total && h == hex16 (fnv canon) then "holds" else "fails:ok-but-incomplete"
+      | ["err", l, h] => match l.toNat? with
+        | some n => if n ≤ total && h == hex16 (fnv (canon.take n)) then "holds" else "fails:not-a-prefix"
+        | none => "fails"
+      | _ => "fails:neither-ok-nor-err"
+    let lname := match sp.limit with
+      | some (n, _) => if n < total then "limited" else "limit-beyond"
+      | none => "nolimit"
+    let fit := if total < cap then "fits-buffer" else "exceeds-buffer"
+    answer m v s!"{op}-{fit}-{lname}-{stName r.2}{if old.2 != r.2 then "-flush-decides" else ""}"
+  | _ => answer "noparse" "dontcare" "noparse"
+
 def handle (op : String) (args : List String) (impl : String) : String :=
   match args with
+  | [pkg, c, a] =>
+    if op != "wf" then badReq "args" else
+    match bytesOfHex pkg, c.toNat?, parseSpec a with
+    | some bs, some cap, some sp => writeFileHandle op bs cap sp impl
+    | _, _, _ => badReq "wf-args"
   | [pkg, a] =>
+    if op == "wfile" then
+      match bytesOfHex pkg, (if a == "-" then some ({ chunk := .all } : Spec) else a.toNat?.map fun n => ({ chunk := .all, limit := some (n, 0) } : Spec)) with
+      | some bs, some sp => writeFileHandle op bs 8192 sp impl
+      | _, _ => badReq "wfile-args"
+    else
     match bytesOfHex pkg with
     | none => badReq "hex"
     | some bs =>
